@@ -82,6 +82,11 @@ def r1(cx, rec):
         writes = {k for q, k in ks if k in ('store', 'ref_mut', 'init')}
         rec.site(F.fn(owner), None, 'touches queues: %s' % sorted(ks))
         if writes - {'init'}:
+            # a method of the queue's own type that only the two owners call is part of them (an extracted step)
+            cs = {F.owner_fn(g).path for g, bb in C.callers(F, owner)}
+            if F.fn(owner).self_ty == adt and cs and cs <= okowners:
+                rec.site(F.fn(owner), None, 'helper of %s, called only from %s' % (adt, sorted(cs)))
+                continue
             rec.need(owner in okowners, 'queue-writer/' + owner, F.fn(owner), None, '%s mutates the request queues' % owner)
 
 
@@ -228,6 +233,8 @@ def r3(cx, rec):
     H, vbb = C01.block_handler(F)
     S, rb = sender_fn(F)
     spath = F.owner_fn(S).path
+    H0 = H
+    H = mirq.inline_fn(F, H, lambda g: g.self_ty == adt and not g.trait and {F.owner_fn(c).path for c, bb in C.callers(F, g.path)} == {F.owner_fn(H0).path}, depth=1)
     rets = [bb for bb in mirq.real_calls(H) if H.expr_call(bb)[4].get('name') == 'retain']
     rec.need(len(rets) == 1, 'no-retain', H, None, 'the answered block is not removed from the outstanding queue (retain)')
     for rb2 in rets:
@@ -262,6 +269,7 @@ def r3(cx, rec):
         rec.site(cf, None, 'retain predicate truth table: %s' % [({k[-28:]: v for k, v in a.items()}, r) for a, r in tt])
         rec.need(okd and not kept_when_equal, 'retain-predicate', cf, None, 'the removed element is not exactly the one equal in begin and length')
     # after the copy: completion guard or send_request
+    H = H0
     copies = [bb for bb in mirq.real_calls(H) if H.expr_call(bb)[4].get('name') in ('copy_from_slice', 'clone_from_slice')]
     sends = C.calls_to_fn(F, H, spath)
     comp = vbb
